@@ -1,3 +1,835 @@
+//! Parser family (C08): texts of the documented format and definitely-invalid mutations of them.
+//!
+//! Requests
+//!   `parse <hex of the UTF-8 text | ->`            `= ok names=.. dict=.. acs=.. order=.. tt=.. | error | panic`
+//!   `parsecheck <hex text> <error | facts:...>`    `~ <the same rendering of what the real parser did>`
+//! The second request carries the generator's ground truth (the facts it pretty-printed, or
+//! `error` for a mutation that is outside the grammar); the model driver answers it with the
+//! rendering of that ground truth, computed by the specification-level functions.
+//!
+//! Rendering (identical in `Drv/Parser.lean`): labels as `L<hex of UTF-8>`, formulas in prefix form
+//! `T F L.. not(x) and(x,y) or(x,y) imp(x,y) xor(x,y) iff(x,y)`, lists `,`/`;`-separated, `-` if empty.
+//!   names  namelist in order                      dict   all entries of the map as label@index, by index
+//!   acs    label:formula in file order            order  formula_order (index of each ac's label) | panic
+//!   tt     per statement the truth table (hex) of the diagram `Adf::from_parser` stores for it
+//!          (bit a = value under the assignment whose bit v is the value of statement v) | panic | skipped
 use crate::{rng::Rng, Out};
-pub fn gen(_r: &mut Rng, _cases: usize, _size: usize, _extra: &[String], _out: &mut Out) {}
-pub fn exec(_ws: &[&str], _l: &str, _out: &mut Out) -> bool { false }
+use adf_bdd::adf::Adf;
+use adf_bdd::parser::{AdfParser, Formula};
+use std::panic::{catch_unwind, AssertUnwindSafe};
+
+const TT_MAX_VARS: usize = 10;
+
+// ---------------------------------------------------------------------------------------------
+// generator side: AST, labels, pretty printer with layout
+
+#[derive(Clone, Debug)]
+enum F {
+    Top,
+    Bot,
+    Atom(usize),
+    Not(Box<F>),
+    Bin(usize, Box<F>, Box<F>),
+}
+const BIN: [&str; 5] = ["and", "or", "imp", "xor", "iff"];
+
+#[derive(Clone, Debug)]
+enum Fact {
+    S(usize),
+    Ac(usize, F),
+}
+
+fn hex(s: &str) -> String {
+    if s.is_empty() {
+        return "-".to_string();
+    }
+    s.bytes().map(|b| format!("{b:02x}")).collect()
+}
+fn unhex(s: &str) -> Option<String> {
+    if s == "-" {
+        return Some(String::new());
+    }
+    if s.len() % 2 != 0 {
+        return None;
+    }
+    let mut v = Vec::new();
+    let b = s.as_bytes();
+    for i in (0..b.len()).step_by(2) {
+        v.push(u8::from_str_radix(std::str::from_utf8(&b[i..i + 2]).ok()?, 16).ok()?);
+    }
+    String::from_utf8(v).ok()
+}
+fn lab(s: &str) -> String {
+    let h: String = s.bytes().map(|b| format!("{b:02x}")).collect();
+    format!("L{h}")
+}
+
+fn is_bare(l: &str) -> bool {
+    !l.is_empty() && l.chars().all(|c| c.is_ascii_alphanumeric())
+}
+
+const KEYWORDS: [&str; 22] = [
+    "and", "andy", "c", "neg1", "s", "ac", "or", "iff", "xor", "imp", "neg", "v", "f", "cv", "cf", "nega", "orc", "sac",
+    "ands", "impl", "xors", "iffy",
+];
+const QUOTED: [&str; 26] = [
+    "",
+    " ",
+    "a b",
+    " a ",
+    "a(b)",
+    "(",
+    ")",
+    "))((",
+    "a,b",
+    ",",
+    ".",
+    "s(a).",
+    "ac(a,c(v)).",
+    "and(a,b)",
+    "c(v)",
+    "neg(x)",
+    "a_b",
+    "a-b",
+    "\t",
+    "line\nbreak",
+    "\u{e4}\u{f6}\u{fc}",
+    "\u{3bb}x",
+    "\u{1f600}",
+    "x\u{301}",
+    "'",
+    "\\",
+];
+
+/// (label, class)
+fn gen_label(r: &mut Rng) -> (String, &'static str) {
+    match r.below(10) {
+        0..=2 => {
+            let n = r.range(1, 4);
+            let s: String = (0..n)
+                .map(|i| {
+                    let k = r.below(if i == 0 { 52 } else { 62 });
+                    match k {
+                        0..=25 => (b'a' + k as u8) as char,
+                        26..=51 => (b'A' + (k - 26) as u8) as char,
+                        _ => (b'0' + (k - 52) as u8) as char,
+                    }
+                })
+                .collect();
+            (s, "alnum")
+        }
+        3..=5 => (KEYWORDS[r.usize(KEYWORDS.len())].to_string(), "keyword"),
+        6 => {
+            let n = r.range(1, 3);
+            ((0..n).map(|_| (b'0' + r.below(10) as u8) as char).collect(), "numeric")
+        }
+        _ => (QUOTED[r.usize(QUOTED.len())].to_string(), "quoted"),
+    }
+}
+
+fn gen_formula(r: &mut Rng, depth: usize, nlabels: usize) -> F {
+    let leaf = depth == 0 || r.chance(3, 10);
+    if leaf {
+        match r.below(8) {
+            0 => F::Top,
+            1 => F::Bot,
+            _ => F::Atom(r.usize(nlabels)),
+        }
+    } else {
+        match r.below(7) {
+            0 | 1 => F::Not(Box::new(gen_formula(r, depth - 1, nlabels))),
+            k => F::Bin(
+                (k - 2) as usize,
+                Box::new(gen_formula(r, depth - 1, nlabels)),
+                Box::new(gen_formula(r, depth - 1, nlabels)),
+            ),
+        }
+    }
+}
+
+fn ws(r: &mut Rng) -> String {
+    match r.below(10) {
+        0..=4 => String::new(),
+        5 => " ".into(),
+        6 => "\n".into(),
+        7 => "\t".into(),
+        8 => "\r\n".into(),
+        _ => {
+            let n = r.range(2, 5);
+            (0..n).map(|_| [' ', '\t', '\r', '\n'][r.usize(4)]).collect()
+        }
+    }
+}
+
+struct Printer<'a> {
+    labels: &'a [String],
+    /// 0 = no layout at all, 1 = random blanks where the grammar allows them
+    layout: u8,
+}
+impl Printer<'_> {
+    fn ws(&self, r: &mut Rng) -> String {
+        if self.layout == 0 {
+            String::new()
+        } else {
+            ws(r)
+        }
+    }
+    fn label(&self, r: &mut Rng, i: usize, out: &mut String) {
+        let l = &self.labels[i];
+        if is_bare(l) && !r.chance(1, 5) {
+            out.push_str(l);
+        } else {
+            out.push('"');
+            out.push_str(l);
+            out.push('"');
+        }
+    }
+    fn formula(&self, r: &mut Rng, f: &F, out: &mut String) {
+        match f {
+            F::Top => out.push_str("c(v)"),
+            F::Bot => out.push_str("c(f)"),
+            F::Atom(i) => self.label(r, *i, out),
+            F::Not(a) => {
+                out.push_str("neg(");
+                self.formula(r, a, out);
+                out.push(')');
+            }
+            F::Bin(k, a, b) => {
+                out.push_str(BIN[*k]);
+                out.push('(');
+                self.formula(r, a, out);
+                out.push_str(&self.ws(r));
+                out.push(',');
+                out.push_str(&self.ws(r));
+                self.formula(r, b, out);
+                out.push(')');
+            }
+        }
+    }
+    fn fact(&self, r: &mut Rng, f: &Fact, out: &mut String) {
+        match f {
+            Fact::S(i) => {
+                out.push_str("s(");
+                self.label(r, *i, out);
+                out.push_str(").");
+            }
+            Fact::Ac(i, f) => {
+                out.push_str("ac(");
+                self.label(r, *i, out);
+                out.push_str(&self.ws(r));
+                out.push(',');
+                out.push_str(&self.ws(r));
+                self.formula(r, f, out);
+                out.push_str(").");
+            }
+        }
+        out.push_str(&self.ws(r));
+    }
+}
+
+fn render_f(labels: &[String], f: &F) -> String {
+    match f {
+        F::Top => "T".into(),
+        F::Bot => "F".into(),
+        F::Atom(i) => lab(&labels[*i]),
+        F::Not(a) => format!("not({})", render_f(labels, a)),
+        F::Bin(k, a, b) => format!("{}({},{})", BIN[*k], render_f(labels, a), render_f(labels, b)),
+    }
+}
+
+/// the generator's ground truth, as the facts it is about to print
+fn render_facts(labels: &[String], facts: &[Fact]) -> String {
+    let v: Vec<String> = facts
+        .iter()
+        .map(|f| match f {
+            Fact::S(i) => format!("s:{}", lab(&labels[*i])),
+            Fact::Ac(i, f) => format!("a:{}:{}", lab(&labels[*i]), render_f(labels, f)),
+        })
+        .collect();
+    format!("facts:{}", v.join(";"))
+}
+
+struct Valid {
+    text: String,
+    labels: Vec<String>,
+    facts: Vec<Fact>,
+    class: String,
+}
+
+fn gen_valid(r: &mut Rng, maxn: usize) -> Valid {
+    let n = r.range(1, maxn);
+    let mut labels: Vec<String> = Vec::new();
+    let mut classes: Vec<&'static str> = Vec::new();
+    while labels.len() < n {
+        let (l, c) = gen_label(r);
+        if !labels.contains(&l) {
+            labels.push(l);
+            if !classes.contains(&c) {
+                classes.push(c);
+            }
+        }
+    }
+    // one extra label that is (mostly) not declared: conditions for / atoms of undeclared labels
+    let undeclared = r.chance(1, 12);
+    let natoms = if undeclared {
+        let (l, _) = gen_label(r);
+        if !labels.contains(&l) {
+            labels.push(l);
+        }
+        labels.len()
+    } else {
+        n
+    };
+    let mut facts: Vec<Fact> = Vec::new();
+    for i in 0..n {
+        facts.push(Fact::S(i));
+        if r.chance(1, 10) {
+            facts.push(Fact::S(i)); // declared twice
+        }
+        if !r.chance(1, 10) {
+            let d = r.range(0, 4);
+            facts.push(Fact::Ac(i, gen_formula(r, d, natoms)));
+            if r.chance(1, 12) {
+                let d = r.range(0, 2);
+                facts.push(Fact::Ac(i, gen_formula(r, d, natoms))); // condition given twice
+            }
+        }
+    }
+    if undeclared && r.chance(1, 2) {
+        facts.push(Fact::Ac(labels.len() - 1, gen_formula(r, 1, natoms)));
+    }
+    // fact order: as is (s before its ac), all s first, or fully shuffled
+    match r.below(3) {
+        0 => {}
+        1 => {
+            let (mut a, b): (Vec<Fact>, Vec<Fact>) = facts.into_iter().partition(|f| matches!(f, Fact::S(_)));
+            a.extend(b);
+            facts = a;
+        }
+        _ => {
+            for i in (1..facts.len()).rev() {
+                facts.swap(i, r.usize(i + 1));
+            }
+        }
+    }
+    let p = Printer { labels: &labels, layout: if r.chance(1, 4) { 0 } else { 1 } };
+    let mut text = String::new();
+    for f in &facts {
+        p.fact(r, f, &mut text);
+    }
+    classes.sort_unstable();
+    Valid { text, labels, facts, class: classes.join("+") }
+}
+
+// ---------------------------------------------------------------------------------------------
+// malformed stream: mutations that leave the grammar for certain
+
+/// byte positions of the text that are outside quoted labels (the quotes themselves excluded);
+/// all structural characters are ASCII, so byte positions are character boundaries there
+fn outside(text: &str) -> Vec<bool> {
+    let mut inq = false;
+    text.bytes()
+        .map(|b| {
+            if b == b'"' {
+                inq = !inq;
+                false
+            } else {
+                !inq
+            }
+        })
+        .collect()
+}
+
+fn positions(text: &str, pred: impl Fn(u8) -> bool) -> Vec<usize> {
+    let o = outside(text);
+    text.bytes().enumerate().filter(|(i, b)| o[*i] && pred(*b)).map(|(i, _)| i).collect()
+}
+
+fn is_kw_char(b: u8) -> bool {
+    b.is_ascii_alphanumeric()
+}
+
+/// Every mutation below yields a text outside the grammar; the reason is given at each case.
+/// Returns (text, kind).
+fn mutate(r: &mut Rng, v: &Valid) -> (String, &'static str) {
+    let t = &v.text;
+    let b = t.as_bytes();
+    for _ in 0..50 {
+        match r.below(17) {
+            0 => {
+                // drop one bracket outside quotes: brackets outside quoted labels are balanced in
+                // every text of the grammar (C08.accepted_balanced), after the deletion they are not
+                let ps = positions(t, |c| c == b'(' || c == b')');
+                if ps.is_empty() {
+                    continue;
+                }
+                let p = ps[r.usize(ps.len())];
+                return (format!("{}{}", &t[..p], &t[p + 1..]), "drop-bracket");
+            }
+            1 => {
+                // insert one bracket outside quotes: unbalanced for the same reason
+                let o = outside(t);
+                // positions that are certainly outside a quoted label: in front of a character that
+                // is outside, or at the end of the text
+                let ps: Vec<usize> = (0..=b.len()).filter(|&i| i == b.len() || o[i]).collect();
+                let p = ps[r.usize(ps.len())];
+                let c = if r.bool() { "(" } else { ")" };
+                return (format!("{}{}{}", &t[..p], c, &t[p..]), "insert-bracket");
+            }
+            2 => {
+                // drop the terminator of the last fact: an accepted text ends in `.` and blanks
+                // (C08.accepted_ends_with_dot)
+                let ps = positions(t, |c| c == b'.');
+                let p = *ps.last().unwrap();
+                return (format!("{}{}", &t[..p], &t[p + 1..]), "drop-last-terminator");
+            }
+            3 => {
+                // drop the terminator of an inner fact: `)` closing a fact must be followed by `.`
+                let ps = positions(t, |c| c == b'.');
+                if ps.len() < 2 {
+                    continue;
+                }
+                let p = ps[r.usize(ps.len() - 1)];
+                return (format!("{}{}", &t[..p], &t[p + 1..]), "drop-inner-terminator");
+            }
+            4 => {
+                // trailing garbage that is not a fact
+                let g = ["wee", "x", " wee", "s(a)", ")", "(", ",", ".", "ac(a,b)", "\"", "s", "%", "s(a). x", "\u{e4}", "c(v)."];
+                return (format!("{}{}", t, g[r.usize(g.len())]), "trailing-garbage");
+            }
+            5 => {
+                // leading blank: a file starts with the tag `s` or `ac`
+                let g = [" ", "\n", "\t", "\r\n", "  "];
+                return (format!("{}{}", g[r.usize(g.len())], t), "leading-whitespace");
+            }
+            6 => {
+                // wrong arity of a connective: replace one `KW(` group's top-level argument list.
+                // one argument too few: delete a top-level comma together with the argument after it;
+                // realised textually as: delete from a comma (outside quotes) to the bracket closing its group
+                let ps = positions(t, |c| c == b',');
+                if ps.is_empty() {
+                    continue;
+                }
+                let p = ps[r.usize(ps.len())];
+                let o = outside(t);
+                let mut depth = 0i32;
+                let mut q = p + 1;
+                while q < b.len() {
+                    if o[q] && b[q] == b'(' {
+                        depth += 1;
+                    } else if o[q] && b[q] == b')' {
+                        if depth == 0 {
+                            break;
+                        }
+                        depth -= 1;
+                    }
+                    q += 1;
+                }
+                // `KW(x)` with a binary KW or `ac(x)`: the group now has no top-level comma
+                return (format!("{}{}", &t[..p], &t[q..]), "arity-too-few");
+            }
+            7 => {
+                // one argument too many: duplicate `,arg` in front of a closing bracket
+                let ps = positions(t, |c| c == b')');
+                let p = ps[r.usize(ps.len())];
+                let extra = [",c(v)", ",a", " , x", ",\"q\""];
+                return (format!("{}{}{}", &t[..p], extra[r.usize(extra.len())], &t[p..]), "arity-too-many");
+            }
+            8 => {
+                // unknown connective / wrong case: `(` may only follow s, ac, c, neg, and, or, imp, xor, iff
+                let ps = positions(t, |c| c == b'(');
+                let p = ps[r.usize(ps.len())];
+                let mut st = p;
+                while st > 0 && is_kw_char(b[st - 1]) {
+                    st -= 1;
+                }
+                let kw = &t[st..p];
+                let repl = match kw {
+                    "s" => ["S", "st", "statement", "x"][r.usize(4)],
+                    "ac" => ["AC", "Ac", "a", "acc"][r.usize(4)],
+                    "c" => ["C", "const", "k", "cc"][r.usize(4)],
+                    "neg" => ["not", "NEG", "ne", "negg"][r.usize(4)],
+                    _ => ["nand", "AND", "And", "equiv", "nor", "implies", "xo", "if"][r.usize(8)],
+                };
+                return (format!("{}{}{}", &t[..st], repl, &t[p..]), "unknown-connective");
+            }
+            9 => {
+                // blank where the grammar has none: after `(`, before `)`, before `(`, before the terminator
+                let ps = positions(t, |c| c == b'(' || c == b')' || c == b'.');
+                let p = ps[r.usize(ps.len())];
+                let at = if b[p] == b'(' && r.bool() { p + 1 } else { p };
+                let g = [" ", "\n", "\t"][r.usize(3)];
+                return (format!("{}{}{}", &t[..at], g, &t[at..]), "misplaced-whitespace");
+            }
+            10 => {
+                // no fact at all
+                return (["", " ", "\n", "  \n"][r.usize(4)].to_string(), "empty");
+            }
+            11 => {
+                // drop one quote: the number of `"` is even in every text of the grammar
+                let ps: Vec<usize> = b.iter().enumerate().filter(|(_, c)| **c == b'"').map(|(i, _)| i).collect();
+                if ps.is_empty() {
+                    continue;
+                }
+                let p = ps[r.usize(ps.len())];
+                return (format!("{}{}", &t[..p], &t[p + 1..]), "drop-quote");
+            }
+            12 => {
+                // comma replaced by a blank / doubled
+                let ps = positions(t, |c| c == b',');
+                if ps.is_empty() {
+                    continue;
+                }
+                let p = ps[r.usize(ps.len())];
+                let repl = if r.bool() { " " } else { ",," };
+                return (format!("{}{}{}", &t[..p], repl, &t[p + 1..]), "comma");
+            }
+            13 => {
+                // character that may not occur in an unquoted label, put into one
+                let ps: Vec<usize> =
+                    positions(t, |c| c == b')').into_iter().filter(|&p| p > 0 && is_kw_char(b[p - 1])).collect();
+                if ps.is_empty() {
+                    continue;
+                }
+                let p = ps[r.usize(ps.len())];
+                let g = ["_", "-", "\u{e4}", "'", "+", "\u{3bb}"][r.usize(6)];
+                return (format!("{}{}{}", &t[..p], g, &t[p..]), "illegal-label-char");
+            }
+            14 => {
+                // terminator doubled or replaced
+                let ps = positions(t, |c| c == b'.');
+                let p = ps[r.usize(ps.len())];
+                let repl = ["..", ";", ",", ":"][r.usize(4)];
+                return (format!("{}{}{}", &t[..p], repl, &t[p + 1..]), "bad-terminator");
+            }
+            15 => {
+                // constant with a wrong argument
+                let bad = ["c(t)", "c()", "c(V)", "c(vf)", "c(\"v\")", "c(1)"][r.usize(6)];
+                if let Some(p) = t.find("c(v)").or_else(|| t.find("c(f)")) {
+                    if outside(t)[p] && (p == 0 || !is_kw_char(b[p - 1])) {
+                        return (format!("{}{}{}", &t[..p], bad, &t[p + 4..]), "bad-constant");
+                    }
+                }
+                continue;
+            }
+            _ => {
+                // an empty argument: `neg()`, `and(,x)`, `s()`
+                let ps = positions(t, |c| c == b'(');
+                let p = ps[r.usize(ps.len())];
+                let o = outside(t);
+                let mut depth = 0i32;
+                let mut q = p + 1;
+                while q < b.len() {
+                    if o[q] && b[q] == b'(' {
+                        depth += 1;
+                    } else if o[q] && (b[q] == b')' || b[q] == b',' && depth == 0) {
+                        if depth == 0 {
+                            break;
+                        }
+                        depth -= 1;
+                    }
+                    q += 1;
+                }
+                return (format!("{}{}", &t[..p + 1], &t[q..]), "empty-argument");
+            }
+        }
+    }
+    (format!("{} wee", t), "trailing-garbage")
+}
+
+/// single-character deletion / insertion / replacement without ground truth (model decides)
+fn fuzz(r: &mut Rng, v: &Valid) -> String {
+    let cs: Vec<char> = v.text.chars().collect();
+    let alphabet = ['(', ')', ',', '.', '"', ' ', '\n', 's', 'a', 'c', 'v', 'f', 'n', 'x', '1', '_', '\u{e4}'];
+    let mut out: Vec<char> = cs.clone();
+    let k = r.range(1, 2);
+    for _ in 0..k {
+        if out.is_empty() {
+            out.push(alphabet[r.usize(alphabet.len())]);
+            continue;
+        }
+        let p = r.usize(out.len());
+        match r.below(3) {
+            0 => {
+                out.remove(p);
+            }
+            1 => out.insert(p, alphabet[r.usize(alphabet.len())]),
+            _ => out[p] = alphabet[r.usize(alphabet.len())],
+        }
+    }
+    out.into_iter().collect()
+}
+
+pub fn gen(r: &mut Rng, cases: usize, size: usize, extra: &[String], out: &mut Out) {
+    let maxn = if size == 0 { 6 } else { size };
+    let only_valid = extra.iter().any(|e| e == "valid");
+    let only_malformed = extra.iter().any(|e| e == "malformed");
+    let only_fuzz = extra.iter().any(|e| e == "fuzz");
+    for case in 0..cases {
+        out.line(&format!("case parser-{case}"));
+        let v = gen_valid(r, maxn);
+        let pick = r.below(20);
+        let kind = if only_valid {
+            0
+        } else if only_malformed {
+            1
+        } else if only_fuzz {
+            2
+        } else if pick < 10 {
+            0
+        } else if pick < 17 {
+            1
+        } else {
+            2
+        };
+        match kind {
+            0 => {
+                out.line(&format!("parse {}", hex(&v.text)));
+                out.line(&format!("parsecheck {} {}", hex(&v.text), render_facts(&v.labels, &v.facts)));
+                out.line(&format!(
+                    "# case parser kind=valid len={} facts={} labels={}",
+                    v.text.len(),
+                    v.facts.len(),
+                    v.class
+                ));
+            }
+            1 => {
+                let (t, m) = mutate(r, &v);
+                out.line(&format!("parse {}", hex(&t)));
+                out.line(&format!("parsecheck {} error", hex(&t)));
+                out.line(&format!(
+                    "# case parser kind=malformed len={} facts={} labels={} mut={}",
+                    t.len(),
+                    v.facts.len(),
+                    v.class,
+                    m
+                ));
+            }
+            _ => {
+                let t = fuzz(r, &v);
+                out.line(&format!("parse {}", hex(&t)));
+                out.line(&format!("# case parser kind=fuzz len={} facts={} labels={}", t.len(), v.facts.len(), v.class));
+            }
+        }
+    }
+}
+
+// ---------------------------------------------------------------------------------------------
+// implementation side: what the real parser did with a text
+
+fn render_formula(f: &Formula) -> String {
+    match f {
+        Formula::Top => "T".into(),
+        Formula::Bot => "F".into(),
+        Formula::Atom(a) => lab(a),
+        Formula::Not(a) => format!("not({})", render_formula(a)),
+        Formula::And(a, b) => format!("and({},{})", render_formula(a), render_formula(b)),
+        Formula::Or(a, b) => format!("or({},{})", render_formula(a), render_formula(b)),
+        Formula::Imp(a, b) => format!("imp({},{})", render_formula(a), render_formula(b)),
+        Formula::Xor(a, b) => format!("xor({},{})", render_formula(a), render_formula(b)),
+        Formula::Iff(a, b) => format!("iff({},{})", render_formula(a), render_formula(b)),
+    }
+}
+
+/// a list of Rust `Debug`-formatted string literals `"a", "b\"c"` followed by `] } }` up to the end
+fn parse_debug_strings(s: &str) -> Option<Vec<String>> {
+    let cs: Vec<char> = s.chars().collect();
+    let mut i = 0;
+    let mut res = Vec::new();
+    loop {
+        if i < cs.len() && cs[i] == ']' {
+            let rest: String = cs[i..].iter().collect();
+            return if rest == "] } }" { Some(res) } else { None };
+        }
+        if i >= cs.len() || cs[i] != '"' {
+            return None;
+        }
+        i += 1;
+        let mut cur = String::new();
+        loop {
+            if i >= cs.len() {
+                return None;
+            }
+            match cs[i] {
+                '"' => {
+                    i += 1;
+                    break;
+                }
+                '\\' => {
+                    i += 1;
+                    match *cs.get(i)? {
+                        'n' => cur.push('\n'),
+                        't' => cur.push('\t'),
+                        'r' => cur.push('\r'),
+                        '0' => cur.push('\0'),
+                        '\\' => cur.push('\\'),
+                        '"' => cur.push('"'),
+                        '\'' => cur.push('\''),
+                        'u' => {
+                            if *cs.get(i + 1)? != '{' {
+                                return None;
+                            }
+                            let mut j = i + 2;
+                            let mut v = 0u32;
+                            while *cs.get(j)? != '}' {
+                                v = v * 16 + cs[j].to_digit(16)?;
+                                j += 1;
+                            }
+                            cur.push(char::from_u32(v)?);
+                            i = j;
+                        }
+                        _ => return None,
+                    }
+                    i += 1;
+                }
+                c => {
+                    cur.push(c);
+                    i += 1;
+                }
+            }
+        }
+        res.push(cur);
+        if i + 1 < cs.len() && cs[i] == ',' && cs[i + 1] == ' ' {
+            i += 2;
+        }
+    }
+}
+
+/// `formulaname` is private; it is read off the derived `Debug` output of the parser object
+/// (last field, a `RefCell<Vec<String>>`)
+fn formula_names(parser: &AdfParser) -> Option<Vec<String>> {
+    let d = format!("{:?}", parser);
+    let marker = "formulaname: RefCell { value: [";
+    let mut from = 0;
+    while let Some(p) = d[from..].find(marker) {
+        let start = from + p + marker.len();
+        if let Some(v) = parse_debug_strings(&d[start..]) {
+            return Some(v);
+        }
+        from = from + p + 1;
+    }
+    None
+}
+
+fn tt_hex(bits: &[bool]) -> String {
+    let mut s = String::new();
+    let n = bits.len().div_ceil(4);
+    for d in (0..n).rev() {
+        let mut v = 0u32;
+        for k in 0..4 {
+            if bits.get(4 * d + k).copied().unwrap_or(false) {
+                v |= 1 << k;
+            }
+        }
+        if v != 0 || !s.is_empty() {
+            s.push(char::from_digit(v, 16).unwrap());
+        }
+    }
+    if s.is_empty() {
+        "0".into()
+    } else {
+        s
+    }
+}
+
+fn join_or_dash(v: Vec<String>, sep: &str) -> String {
+    if v.is_empty() {
+        "-".into()
+    } else {
+        v.join(sep)
+    }
+}
+
+/// runs the real parser on the text and renders everything that can be seen of the result
+pub fn observe(text: &str) -> String {
+    let r = catch_unwind(AssertUnwindSafe(|| {
+        let parser = AdfParser::default();
+        let rest = match parser.parse()(text) {
+            Ok((rest, ())) => rest.len(),
+            Err(_) => return "error".to_string(),
+        };
+        let vc = parser.var_container();
+        let names: Vec<String> = vc.names().read().expect("names").clone();
+        let mut dict: Vec<(usize, String)> =
+            vc.mappings().read().expect("dict").iter().map(|(k, v)| (*v, k.clone())).collect();
+        dict.sort();
+        let mut formulae = Vec::new();
+        let mut i = 0;
+        while let Some(f) = parser.ac_at(i) {
+            formulae.push(render_formula(&f));
+            i += 1;
+        }
+        let fnames = formula_names(&parser);
+        let (acs, order) = match &fnames {
+            Some(ns) if ns.len() == formulae.len() => {
+                let acs = join_or_dash(ns.iter().zip(formulae.iter()).map(|(n, f)| format!("{}:{}", lab(n), f)).collect(), ";");
+                let ord: Option<Vec<String>> = ns.iter().map(|n| parser.dict_value(n).map(|v| v.to_string())).collect();
+                (acs, ord.map(|o| join_or_dash(o, ",")).unwrap_or_else(|| "panic".into()))
+            }
+            _ => ("unobservable:".to_string() + &formulae.join(";"), "unobservable".to_string()),
+        };
+        // what `Adf::from_parser` makes of it (uses the crate-private `formula_order`)
+        let n = parser.dict_size();
+        let tt = if n > TT_MAX_VARS {
+            "skipped".to_string()
+        } else {
+            match catch_unwind(AssertUnwindSafe(|| {
+                let adf = Adf::from_parser(&parser);
+                let mut tts = Vec::new();
+                for t in adf.ac.iter() {
+                    let mut bits = Vec::with_capacity(1 << n);
+                    for a in 0..(1usize << n) {
+                        let mut cur = *t;
+                        let mut steps = 0;
+                        while !cur.is_truth_value() && steps <= adf.bdd.nodes.len() {
+                            let node = adf.bdd.nodes[cur.value()];
+                            let v = node.var().value();
+                            cur = if v < 64 && (a >> v) & 1 == 1 { node.hi() } else { node.lo() };
+                            steps += 1;
+                        }
+                        bits.push(cur.is_true());
+                    }
+                    tts.push(tt_hex(&bits));
+                }
+                join_or_dash(tts, ",")
+            })) {
+                Ok(s) => s,
+                Err(_) => "panic".to_string(),
+            }
+        };
+        format!(
+            "ok names={} dict={} acs={} order={} tt={}{}",
+            join_or_dash(names.iter().map(|n| lab(n)).collect(), ","),
+            join_or_dash(dict.iter().map(|(v, k)| format!("{}@{}", lab(k), v)).collect(), ","),
+            acs,
+            order,
+            tt,
+            if rest > 0 { format!(" rest={rest}") } else { String::new() }
+        )
+    }));
+    r.unwrap_or_else(|_| "panic".to_string())
+}
+
+pub fn exec(ws: &[&str], l: &str, out: &mut Out) -> bool {
+    match ws[0] {
+        "parse" if ws.len() == 2 => {
+            out.line(l);
+            out.flush();
+            match unhex(ws[1]) {
+                Some(text) => out.line(&format!("= {}", observe(&text))),
+                None => out.line("= bad-request"),
+            }
+            true
+        }
+        "parsecheck" if ws.len() == 3 => {
+            out.line(l);
+            out.flush();
+            match unhex(ws[1]) {
+                Some(text) => out.line(&format!("~ {}", observe(&text))),
+                None => out.line("~ bad-request"),
+            }
+            true
+        }
+        _ => false,
+    }
+}
